@@ -15,7 +15,6 @@ package main
 import (
 	"bytes"
 	"crypto/sha256"
-	"encoding/hex"
 	"fmt"
 	"runtime"
 	"sort"
@@ -25,7 +24,6 @@ import (
 
 	"github.com/btcsuite/btcd/blockchain"
 	"github.com/btcsuite/btcd/btcutil/v2"
-	"github.com/btcsuite/btcd/chaincfg/v2"
 	"github.com/btcsuite/btcd/chainhash/v2"
 	"github.com/btcsuite/btcd/mempool"
 	"github.com/btcsuite/btcd/mining"
@@ -41,7 +39,7 @@ import (
 // case description (also the replay object)
 
 type poolSpec struct {
-	Kind string `json:"kind"`           // "U" | "chain" | "sigops" | "big"
+	Kind string `json:"kind"`           // "U" | "chain" | "sigops" | "big" | "locks" | "star"
 	Mask uint32 `json:"mask,omitempty"` // U: subset of the base universe
 	Rev  bool   `json:"rev,omitempty"`  // submit children first (through the orphan pool)
 	A    int    `json:"a,omitempty"`    // chain: length; sigops: #5000-sigop txs; big: padding of the first eight
@@ -145,6 +143,10 @@ func specTxs(w *world, ps poolSpec) []utx {
 		return poolSigops(w, ps.A, ps.B)
 	case "big":
 		return poolBig(w, ps.A, ps.B)
+	case "locks":
+		return poolLocks(w)
+	case "star":
+		return poolStar(w, ps.A)
 	}
 	panic("bad pool kind " + ps.Kind)
 }
@@ -360,7 +362,7 @@ func acceptOnFresh(w *world, raw []byte, also func(c *lab.Chain) string) (res st
 var deepUpdate bool // thorough: every updated block also goes through ProcessBlock on its own fresh chain
 
 // validate computes the policy-independent verdicts for one template block.
-func (u *unit) validate(tmplBlock *wire.MsgBlock, addr string, pol *mining.Policy, useCache bool) *valResult {
+func (u *unit) validate(tmplBlock *wire.MsgBlock, pol *mining.Policy, useCache bool) *valResult {
 	raw := serializeBlock(tmplBlock)
 	sum := sha256.Sum256(raw)
 	key := u.w.Name + "|" + string(sum[:])
@@ -528,7 +530,7 @@ type caseOut struct {
 	problems []problem
 	genErr   string
 	nTx      int
-	blockKey string
+	n        *naive
 }
 
 func (u *unit) runCase(cs caseSpec, useCache bool) (out caseOut) {
@@ -573,12 +575,13 @@ func (u *unit) runCase(cs caseSpec, useCache bool) (out caseOut) {
 		return
 	}
 	out.nTx = len(tmpl.Block.Transactions)
-	vr := u.validate(tmpl.Block, cs.Addr, pol, useCache)
+	vr := u.validate(tmpl.Block, pol, useCache)
 	out.problems = append(out.problems, vr.problems...)
 	n := vr.n
 	if n == nil {
 		return
 	}
+	out.n = n
 	// membership and duplicates
 	inPool := map[chainhash.Hash]bool{}
 	for _, t := range u.txs {
@@ -770,7 +773,11 @@ func (u *unit) policies(addr string, o enumOpts) (list []policySpec, W, S int64,
 
 	var mws []int64
 	mws = append(mws, 3_000_000, W+33, W+32, W+1, W, W-1)
-	for _, t := range u.txs {
+	for i, t := range u.txs {
+		// large pools: only the first and last three transactions
+		if len(u.txs) > 30 && i >= 3 && i < len(u.txs)-3 {
+			continue
+		}
 		mws = append(mws, W-t.Weight+33)
 	}
 	type feeMode struct {
@@ -907,6 +914,12 @@ func report(r *ev.Run, u *unit, cs caseSpec, out caseOut) {
 }
 
 var poolSeen sync.Map // world|poolKey -> true
+var sampled sync.Map
+
+func sampleOnce(k string) bool {
+	_, had := sampled.LoadOrStore(k, true)
+	return !had
+}
 
 func runUnit(r *ev.Run, w *world, ps poolSpec, o enumOpts) {
 	if r.Expired() {
@@ -921,6 +934,12 @@ func runUnit(r *ev.Run, w *world, ps poolSpec, o enumOpts) {
 		r.Broken("harness: world %s pool %v: %s", w.Name, ps, u.harness)
 	}
 	r.Add("units_built", 1)
+	if len(u.rejected) > 0 {
+		r.Add("submissions_rejected_by_the_pool", int64(len(u.rejected)))
+	}
+	if ps.Kind != "U" {
+		r.Add(fmt.Sprintf("constructed_pool[%s %s]: %d txs in the pool, rejected %v", w.Name, ps, len(u.txs), u.rejected), 1)
+	}
 	key := w.Name + "|" + u.poolKey()
 	if _, dup := poolSeen.LoadOrStore(key, true); dup {
 		r.Add("units_with_an_already_covered_pool", 1)
@@ -928,9 +947,6 @@ func runUnit(r *ev.Run, w *world, ps poolSpec, o enumOpts) {
 	}
 	r.State(1)
 	r.Add("pool_states", 1)
-	if len(u.rejected) > 0 {
-		r.Add("submissions_rejected_by_the_pool", int64(len(u.rejected)))
-	}
 	for ai, addr := range o.addrs {
 		oa := o
 		if ai > 0 {
@@ -964,11 +980,34 @@ func runUnit(r *ev.Run, w *world, ps poolSpec, o enumOpts) {
 					if out.nTx-1 < len(u.txs) {
 						r.Add("templates_excluding_some_pool_tx", 1)
 					}
+					if out.n != nil {
+						if d := int64(pol.MaxW) - out.n.Weight; d >= 33 && d <= 36 {
+							r.Add("templates_filled_to_the_last_admissible_weight_unit_(BlockMaxWeight-33..36)", 1)
+						}
+						if out.n.SigOpCost == consMaxBlockSigOpsCost {
+							r.Add("templates_with_sigop_cost_exactly_80000", 1)
+						}
+						if out.n.SigOpCost > consMaxBlockSigOpsCost-20000 && out.n.SigOpCost < consMaxBlockSigOpsCost && ps.Kind == "sigops" {
+							r.Add("templates_that_had_to_leave_out_a_sigop_heavy_tx", 1)
+						}
+						if out.n.CommitIdx >= 0 && !out.n.AnyWit {
+							r.Add("templates_with_commitment_but_no_witness_tx_(allowed)", 1)
+						}
+						if out.n.AnyWit {
+							r.Add("templates_with_witness_txs", 1)
+						}
+						if out.n.Weight > 3_900_000 {
+							r.Add("templates_heavier_than_3.9M_WU", 1)
+						}
+						if ps.Kind == "big" && pol.MaxW >= 3_996_000 {
+							r.Add(fmt.Sprintf("big_pool(last_pad=%d)_maxw=%d:_%d_of_9_txs_weight=%d", ps.B, pol.MaxW, out.nTx-1, out.n.Weight), 1)
+						}
+					}
 				}
 				if len(u.txs) > 0 {
 					r.Nontrivial(fmt.Sprintf("%s|%s|%s|%s", w.Name, u.poolKey(), pol, addr))
 				}
-				if r.WantSample() && len(u.txs) >= 3 && pol.MaxW < 3_000_000 {
+				if _, had := sampled.LoadOrStore(w.Name, true); !had || (r.WantSample() && len(u.txs) >= 4 && pol.MaxW < 3_000_000 && out.nTx > 2 && out.nTx-1 < len(u.txs) && sampleOnce(w.Name+u.poolKey())) {
 					r.Sample(map[string]interface{}{"world": w.Name, "pool": u.poolKey(), "policy": pol.String(), "order": pm, "addr": addr, "template_txs": out.nTx, "W": W})
 				}
 				if len(out.problems) > 0 {
@@ -982,7 +1021,7 @@ func runUnit(r *ev.Run, w *world, ps poolSpec, o enumOpts) {
 // ---------------------------------------------------------------------------
 
 func worldNames() []string {
-	return []string{"plain", "halving5", "halving10", "reorg-post", "reorg-pre", "segwit-last-inactive", "segwit-first-active", "mtp-ahead"}
+	return []string{"plain", "halving5", "halving10", "reorg-post", "reorg-pre", "segwit-last-inactive", "segwit-first-active", "mtp-ahead", "advanced"}
 }
 
 type job struct {
@@ -1085,6 +1124,8 @@ func main() {
 		}
 		jobs = append(jobs, job{w, poolSpec{Kind: "chain", A: 3}, cOpts})
 		jobs = append(jobs, job{w, poolSpec{Kind: "chain", A: 25}, cOpts})
+		jobs = append(jobs, job{w, poolSpec{Kind: "star", A: 260}, enumOpts{permLimit: 1, addrs: []string{"p2pkh"}}})
+		jobs = append(jobs, job{w, poolSpec{Kind: "locks"}, enumOpts{permLimit: 6, full: thorough, addrs: []string{"p2pkh"}}})
 		for _, kb := range [][2]int{{4, 0}, {4, 1}, {3, 1}, {3, 2}, {5, 0}} {
 			jobs = append(jobs, job{w, poolSpec{Kind: "sigops", A: kb[0], B: kb[1]}, cOpts})
 		}
@@ -1105,8 +1146,8 @@ func main() {
 		"worlds":                worldNames(),
 		"universe":              "u0 root; u1<-u0 (best fee rate); u2<-u0 (fee rate < 1000 sat/kB); u3<-u1,u2 (diamond, chain of 3); u4 zero fee/high priority; u5 P2WPKH spend; u6<-u5 (witness, in-pool parent) + mined coin; u7 lock time = tip height",
 		"pool_subsets":          map[bool]string{true: "all 2^8 subsets, submitted parents-first and children-first (through the orphan pool)", false: "all 72 ancestor-closed subsets of the 2^8 (a non-closed subset leaves orphans outside the pool and equals the pool of its closed part), submitted parents-first; the full set also children-first"}[thorough],
-		"constructed_pools":     "dependency chains of 3 and 25; 5000-sigop transactions (3,4,5 of them = 60000/80000/100000 cost) with 0..2 one-sigop transactions; nine ~111 kB transactions landing exactly on / 4 WU past BlockMaxWeight 3,996,000 and 4,000,000",
-		"max_weight_values":     "3,000,000; W+33, W+32, W+1, W, W-1; W-w_i+33 for every pooled tx i (W = reference weight of the block holding the complete pool); 3,996,000; 4,000,000",
+		"constructed_pools":     "dependency chains of 3 and 25; star of one parent with 260 children (262 block transactions: 3-byte count); lock pool (BIP68 relative height lock and lock time satisfied exactly at the next height, zero-lock child of an in-pool parent); 5000-sigop transactions (3,4,5 of them = 60000/80000/100000 cost) with 0..2 one-sigop transactions; nine ~111 kB transactions landing exactly on / 4 WU past BlockMaxWeight 3,996,000 and 4,000,000",
+		"max_weight_values":     "3,000,000; W+33, W+32, W+1, W, W-1; W-w_i+33 for every pooled tx i (pools over 30 txs: first and last three) (W = reference weight of the block holding the complete pool); 3,996,000; 4,000,000",
 		"other_policy_values":   map[string]interface{}{"BlockPrioritySize": "0, W/2, 1,000,000", "TxMinFreeFee": "0, 1000, 100,000,000", "BlockMinWeight": "0, W/2, W+1000", "BlockMaxSize": "999,000; S and S-1 together with BlockMaxWeight 2,000,000"},
 		"policy_cross_product":  map[bool]string{true: "full", false: "max_weight x {prio 0, W/2} x {(minfree,minweight) in (0,0),(1000,0),(1000,W+1000),(1e8,W/2)} plus each remaining value once with a non-binding max weight"}[uOpts.full],
 		"source_orders":         fmt.Sprintf("all permutations while n! <= %d, else identity, reverse, two rotations, interleaved", uOpts.permLimit),
@@ -1184,6 +1225,3 @@ func selfCheckWorlds(r *ev.Run, worlds map[string]*world) {
 		}
 	}
 }
-
-var _ = hex.EncodeToString
-var _ = chaincfg.MainNetParams
